@@ -6,6 +6,7 @@ from .. import inputs
 from . import geom
 
 SPEC = dict(
+    technique='Lean 4 proof (closure of every constructor / product / inverse / power, model regenerated from the source by symbolic execution) + float residual monitor',
     lean_modules=['SmVerif.Props.C01', 'SmVerif.Props.Delegation', 'SmVerif.Props.Structure', 'SmVerif.Props.OA'],
     groups=['Transforms3d', 'Transforms2d', 'TransformsNd', 'Quaternions', 'Poses'],
     expected_untranslatable=('trinterp_T', 'trinterp_T_nostart'),
